@@ -123,6 +123,13 @@ Definition run_tokens (x : sx) : sx :=
   end.
 
 Definition has_include (toks : list token) : bool := existsb (fun t => ttype_eqb (tk_type t) TInclude) toks.
+(* an A2ML block makes the interpretation of IF_DATA depend on the A2ML definition (model: A2ml/, C18) *)
+Fixpoint has_a2ml_block (toks : list token) : bool :=
+  match toks with
+  | a :: ((b :: _) as r) =>
+      (ttype_eqb (tk_type a) TBegin && ttype_eqb (tk_type b) TIdentifier && bytes_eqb (tk_text b) b_a2ml) || has_a2ml_block r
+  | _ => false
+  end.
 
 (* LOAD case: ( text strict optspec cycles floattable ) *)
 Definition run_load (x : sx) : sx :=
@@ -137,6 +144,7 @@ Definition run_load (x : sx) : sx :=
           | TFuel => SL [SS "FUEL"]
           | TOk toks =>
               if has_include toks then SL [SS "UNSUPPORTED"; SS "include"] else
+              if has_a2ml_block toks then SL [SS "UNSUPPORTED"; SS "a2ml"] else
               match toks with
               | [] => SL [SS "ERR"; SL [SS "Other"; SS "EmptyFileError"]]
               | _ =>
@@ -144,7 +152,7 @@ Definition run_load (x : sx) : sx :=
                   match parse_file spec_shipped (init_state toks (negb (strict =? 0)%Z) 1 tab) with
                   | (ROk v, s) =>
                       let text1 := write_node spec_shipped posr_shipped tab names (S (S (length toks))) v 0 in
-                      SL [SS "OK"; enc_value names v; SL (map (enc_diag names) (rev (ps_log s))); sb text1]
+                      SL [SS "OK"; enc_value names v; SL (map (enc_diag names) (frev (ps_log s))); sb text1]
                   | (RErr d, _) => SL [SS "ERR"; enc_diag names d]
                   | (RPanic site, _) => SL [SS "PANIC"; SS site]
                   | (RFuel, _) => SL [SS "FUEL"]
